@@ -277,7 +277,7 @@ struct Exec {
             const double res = std::max(std::abs(q - t), std::abs(u - 1)), bound = 1e-9;
             if (!(res <= bound) && !tracing) sawFailure = true;
             else if ((res <= bound) != tracing || run.verbose)
-                run.residual("state-q-minus-t", res, bound, [&] { return where(); }, [&] { return replay(); }, std::string(INTEG_NAMES[cfg.integ]) + "/returned-state-off-trajectory");
+                run.residual("state-q-minus-t", res, bound, [&] { return where(); }, [&] { return replay(); }, cfg.keyPrefix() + "returned-state-off-trajectory");
         }
         switch (st) {
             case Integrator::StartOfContinuousInterval:
